@@ -94,6 +94,11 @@ class Body:
                 c = self.classify(i, depth + 1)
                 if c == "OWNER":
                     return "OWNER"
+                # edges of a node this iteration owns: edge_begin(n) with n the loop element or a pure copy of it
+                ii = strip(i)
+                if depth < 6 and isinstance(ii, dict) and ii.get("k") == "call" and ii.get("name") in ("edge_begin", "raw_begin") \
+                        and ii.get("a") and self.classify(ii["a"][0], depth + 1) == "OWNER":
+                    return "OWNER"
         return "OTHER"
 
     def csr_cursor(self, n):
